@@ -481,6 +481,9 @@ class Markup(six.text_type):
     def __repr__(self):
         return "<%s %s>" % (type(self).__name__, six.text_type.__repr__(self))
 
+    def __html__(self):
+        return self
+
     def join(self, seq, escape_quotes=True):
         """Return a `Markup` object which is the concatenation of the strings
         in the given sequence, where this `Markup` object is the separator
